@@ -20,4 +20,52 @@ func init() {
 		Assume:  []string{"memdb models bbolt through walletdb (contract in memdb.go)", "tokenised SHA-256 (collision-free) for transaction hashes over symbolic amounts"},
 		Outside: "histories longer than the bound, universes other than the listed ones, syncHeight > 2^30, sums of amounts beyond int64",
 	})
+	storeAssume := []string{"memdb models bbolt through walletdb (contract in memdb/memdb.go; differential-tested against walletdb/bdb)", "tokenised SHA-256 (collision-free) for transaction hashes over symbolic amounts", "events are delivered the way wallet.addRelevantTx does: InsertTx followed by AddCredit for every credited output"}
+	reg(&propDef{
+		ID: "C02",
+		Runs: []hrun{
+			{Pkg: wtxmgrPkg, Fn: "ZzC02U3L3", Tiers: "qt", Reach: []string{"c02-end", "reorg"}, Bound: "U3 (A; conflicting B, B' spend A:0; D spends B:0), histories of 3 events; ledger compared after every event, direct reconstruction at the end"},
+			{Pkg: wtxmgrPkg, Fn: "ZzC02U4L3", Tiers: "qt", Reach: []string{"c02-end", "reorg"}, Bound: "U4 (coinbase CB, S spends CB:0, S2 spends S:0), histories of 3 events"},
+			{Pkg: wtxmgrPkg, Fn: "ZzC02U1L3", Tiers: "t", Reach: []string{"c02-end"}, Bound: "U1 chain, 3 events"},
+			{Pkg: wtxmgrPkg, Fn: "ZzC02U3L4", Tiers: "t", Reach: []string{"c02-end"}, Bound: "U3, 4 events"},
+			{Pkg: wtxmgrPkg, Fn: "ZzC02U4L4", Tiers: "t", Reach: []string{"c02-end"}, Bound: "U4, 4 events"},
+			{Pkg: wtxmgrPkg, Fn: "ZzC02U5L4", Tiers: "t", Reach: []string{"c02-end"}, Bound: "U5 (double edge), 4 events"},
+		},
+		Assume:  storeAssume,
+		Outside: "histories longer than the bound; more than 4 transactions; reconnects re-use block hash variant 1 after a disconnect at that height",
+	})
+	reg(&propDef{
+		ID: "C13",
+		Runs: []hrun{
+			{Pkg: wtxmgrPkg, Fn: "ZzC13U1L3", Tiers: "qt", Reach: []string{"c13-end", "range-backwards", "range-unmined-first", "reorg"}, Bound: "U1 chain, 3 events; TxDetails/UniqueTxDetails for every tx and candidate block, RangeTransactions over symbolic begin/end in [-1,105]"},
+			{Pkg: wtxmgrPkg, Fn: "ZzC13U6L3", Tiers: "qt", Reach: []string{"c13-end", "range-backwards"}, Bound: "U6 (credits with a non-credit output between, debit-only spender), 3 events"},
+			{Pkg: wtxmgrPkg, Fn: "ZzC13U3L3", Tiers: "t", Reach: []string{"c13-end"}, Bound: "U3 conflicts, 3 events"},
+			{Pkg: wtxmgrPkg, Fn: "ZzC13U4L3", Tiers: "t", Reach: []string{"c13-end"}, Bound: "U4 coinbase, 3 events"},
+			{Pkg: wtxmgrPkg, Fn: "ZzC13U1L4", Tiers: "t", Reach: []string{"c13-end"}, Bound: "U1, 4 events"},
+		},
+		Assume:  storeAssume,
+		Outside: "histories longer than the bound; PreviousPkScripts and labels are not asserted",
+	})
+	reg(&propDef{
+		ID: "C12",
+		Runs: []hrun{
+			{Pkg: wtxmgrPkg, Fn: "ZzC12MinedL2", Tiers: "qt", Reach: []string{"c12-end", "leased", "lock-conflict", "lock-extended", "unlock-conflict", "unlocked", "swept", "confirmed-spend", "lock-unknown"}, Bound: "A confirmed with two credits, B spends A:0; 2 events from {see/mine/rollback/abandon, lock(op,id,duration in {0,1ns,1s,10min}), unlock(op,id), clock advance, sweep, restart}; clock seconds and nanoseconds symbolic"},
+			{Pkg: wtxmgrPkg, Fn: "ZzC12UnminedL3", Tiers: "t", Reach: []string{"c12-end", "leased"}, Bound: "A unconfirmed, 3 events"},
+			{Pkg: wtxmgrPkg, Fn: "ZzC12MinedL3", Tiers: "t", Reach: []string{"c12-end", "leased"}, Bound: "A confirmed, 3 events"},
+		},
+		Assume:  append([]string{"the statement's expiry time is the persisted one (whole seconds): LockOutput returns now+d to the nanosecond but stores expiry.Unix()", "the store clock is read as one instant per operation (the harness clock advances only between operations)"}, storeAssume...),
+		Outside: "more than 3 events, more than two lease identifiers, durations other than the four listed",
+	})
+	reg(&propDef{
+		ID: "C10",
+		Runs: []hrun{
+			{Pkg: wtxmgrPkg, Fn: "ZzC10U1P1", Tiers: "qt", Reach: []string{"fault-hit", "c10-end", "fault-not-reached"}, Bound: "U1; every store operation from every state after 1 event; the k-th write/delete/bucket creation of the operation fails, k symbolic"},
+			{Pkg: wtxmgrPkg, Fn: "ZzC10U4P2", Tiers: "qt", Reach: []string{"fault-hit", "c10-end"}, Bound: "U4 (coinbase), pre-states after 2 events"},
+			{Pkg: wtxmgrPkg, Fn: "ZzC10U3P2", Tiers: "t", Reach: []string{"fault-hit", "c10-end"}, Bound: "U3 (conflicts), pre-states after 2 events"},
+			{Pkg: wtxmgrPkg, Fn: "ZzC10U1P2", Tiers: "t", Reach: []string{"fault-hit", "c10-end"}, Bound: "U1, pre-states after 2 events"},
+			{Pkg: wtxmgrPkg, Fn: "ZzC10U3P3", Tiers: "t", Reach: []string{"fault-hit", "c10-end"}, Bound: "U3, pre-states after 3 events"},
+		},
+		Assume:  append([]string{"a failed write is modelled as the walletdb call returning an error without effect; read-side failures and bbolt's own failure modes are not modelled", "address-manager operations are not covered yet (transaction store only)"}, storeAssume...),
+		Outside: "address manager operations; pre-states beyond the listed histories; multiple faults in one operation",
+	})
 }
